@@ -175,10 +175,18 @@ def _check_wakeups(check, an: Analysis):
                         block = rules.atomic_block(path, index)
                         later = [e for e in block if path.events.index(e) > index] \
                             if False else block
+                        def receiver(e):
+                            node = e.node
+                            if isinstance(node, ast.Call) and isinstance(
+                                    node.func, ast.Attribute):
+                                return rules.value_text(path, rules.event_index(path, e),
+                                                        node.func.value)
+                            return call_receiver(e)
+                        here = rules.value_text(path, index, target.value)
                         rise = any(is_call_to(e, rising_trigger) and
-                                   call_receiver(e) == recv_text for e in later)
+                                   receiver(e) == here for e in later)
                         fall = any(is_call_to(e, rising_trigger) and
-                                   call_receiver(e) == '%s.%s' % (recv_text, falling)
+                                   receiver(e) == '%s.%s' % (here, falling)
                                    for e in later)
                         good = (direction == 'rise' and rise) or \
                             (direction == 'fall' and fall) or \
@@ -482,6 +490,79 @@ def _single_return(fn):
     return returns[0].value
 
 
+def _splice_starred(expr):
+    """f(a, *(b,), *[c, d]) -> f(a, b, c, d): literal sequences spliced into the call"""
+    import copy
+
+    class Sub(ast.NodeTransformer):
+        def visit_Call(self, node):
+            node = self.generic_visit(node)
+            args = []
+            for arg in node.args:
+                if isinstance(arg, ast.Starred) and isinstance(
+                        arg.value, (ast.Tuple, ast.List)) and not any(
+                        isinstance(e, ast.Starred) for e in arg.value.elts):
+                    args.extend(arg.value.elts)
+                else:
+                    args.append(arg)
+            node.args = args
+            return node
+    return Sub().visit(copy.deepcopy(expr))
+
+
+def returned_forms(an: Analysis, callee: Callee):
+    """[(path atoms, expanded text of the returned value, expanded node)] per return path"""
+    result = []
+    for path in an.paths(callee):
+        if path.kind != 'return' or path.outcome[1] is None:
+            continue
+        node = _splice_starred(rules.value_expr(path, len(path.events), path.outcome[1]))
+        result.append((rules.path_atoms(path), rules.normalise_state_aliases(
+            ast.unparse(node)), node, path))
+    return result
+
+
+def _returns_only(an, cls_qn, name, want: str) -> bool:
+    forms = returned_forms(an, an.callee(cls_qn, name))
+    return bool(forms) and {text for _a, text, _n, _p in forms} == {want}
+
+
+def _method_predicate(an, cls_qn, name):
+    from ..norm import function_predicate
+    method = an.method(cls_qn, name)
+    try:
+        return function_predicate(method.node)
+    except Exception:
+        return None
+
+
+def _mapped_operands(an, fn, path, node):
+    """(source text, element text over `x`) when ``node`` is `*(f(x) for x in S)` or a
+    local list built as that map"""
+    if not isinstance(node, ast.Starred):
+        return None
+    value = node.value
+    if isinstance(value, (ast.GeneratorExp, ast.ListComp)) and len(value.generators) == 1 \
+            and not value.generators[0].ifs and isinstance(value.generators[0].target,
+                                                            ast.Name):
+        gen = value.generators[0]
+        return ast.unparse(gen.iter), _over_x(value.elt, gen.target.id)
+    if isinstance(value, ast.Name):
+        found = rules.sequence_maps(fn.node).get(value.id)
+        if found is not None and getattr(found, 'cond', None) is None:
+            return ast.unparse(found.src), _over_x(found.elt, found.var)
+    return None
+
+
+def _over_x(expr, var):
+    import copy
+
+    class Sub(ast.NodeTransformer):
+        def visit_Name(self, node):
+            return ast.Name(id='x_', ctx=node.ctx) if node.id == var else node
+    return ast.unparse(Sub().visit(copy.deepcopy(expr)))
+
+
 def _init_mapping(an: Analysis, cls_qn: str, call: ast.Call):
     """attribute -> argument expression for ``cls(*call.args)`` from plain stores in init"""
     init = an.p.find_method(cls_qn, '__init__')
@@ -549,10 +630,11 @@ def _check_algebra(check, an: Analysis, classes):
         check.instance('B', '%s.__bool__:pure' % qn.rsplit('.', 1)[-1], pure,
                        where_fn(method), 'evaluating the condition has no effect')
     # All / Any truth
+    from ..norm import bool_term as _bt, equivalent_terms as _eq
     for qn, want in ((ALL, 'all(self._children)'), (ANY, 'any(self._children)')):
-        expr = _single_return(an.method(qn, '__bool__'))
+        got = _method_predicate(an, qn, '__bool__')
         check.instance('B', '%s.__bool__' % qn.rsplit('.', 1)[-1],
-                       expr is not None and equal_bool(expr, want),
+                       got is not None and _eq(got, _bt(ast.parse(want, mode='eval').body)),
                        where_fn(an.method(qn, '__bool__')), 'truth == %s' % want)
     init = an.method(CONNECTIVE, '__init__')
     stores = [n for n in ast.walk(init.node) if isinstance(n, ast.Assign)
@@ -564,21 +646,26 @@ def _check_algebra(check, an: Analysis, classes):
     # inversion pairs via stored partner objects
     for qn, partner, attr, back in ((FLAG, INVFLAG, '_inverse', '_event'),
                                     (DONE, NOTDONE, '_inverse', '_done')):
-        inv = _single_return(an.method(qn, '__invert__'))
-        init = an.method(qn, '__init__')
-        made = [n for n in ast.walk(init.node) if isinstance(n, ast.Assign)
-                and ast.unparse(n.targets[0]) == 'self.%s' % attr]
-        ok = inv is not None and ast.unparse(inv) == 'self.%s' % attr and len(made) == 1 \
-            and isinstance(made[0].value, ast.Call) and \
-            ast.unparse(made[0].value) == '%s(self)' % partner.rsplit('.', 1)[-1]
-        pexpr = _single_return(an.method(partner, '__bool__'))
-        ok_truth = pexpr is not None and equal_bool(pexpr, 'not self.%s' % back)
-        pinit = an.method(partner, '__init__')
-        param = pinit.node.args.args[1].arg
-        kept = any(isinstance(n, ast.Assign) and ast.unparse(n.targets[0]) == 'self.%s' % back
-                   and ast.unparse(n.value) == param for n in ast.walk(pinit.node))
-        pinv = _single_return(an.method(partner, '__invert__'))
-        ok_back = pinv is not None and ast.unparse(pinv) == 'self.%s' % back
+        init = an.callee(qn, '__init__')
+        made = set()
+        for path in an.paths(init):
+            if path.normal:
+                made.add(tuple(rules.value_text(path, i, e['value'])
+                               for i, e in enumerate(path.events) if e.kind == 'store'
+                               and e['path'] == 'self.%s' % attr and e['value'] is not None))
+        ok = _returns_only(an, qn, '__invert__', 'self.%s' % attr) and \
+            made == {('%s(self)' % partner.rsplit('.', 1)[-1],)}
+        pexpr = _method_predicate(an, partner, '__bool__')
+        ok_truth = pexpr is not None and _eq(pexpr, _bt(ast.parse(
+            'not self.%s' % back, mode='eval').body))
+        pinit = an.callee(partner, '__init__')
+        param = pinit.fn.node.args.args[1].arg
+        kept = all(any(e.kind == 'store' and e['path'] == 'self.%s' % back
+                       and e['value'] is not None
+                       and rules.value_text(path, i, e['value']) == param
+                       for i, e in enumerate(path.events))
+                   for path in an.paths(pinit) if path.normal)
+        ok_back = _returns_only(an, partner, '__invert__', 'self.%s' % back)
         label = qn.rsplit('.', 1)[-1]
         check.instance('B', '~%s' % label, ok and ok_truth and kept,
                        where_fn(an.method(qn, '__invert__')),
@@ -589,8 +676,7 @@ def _check_algebra(check, an: Analysis, classes):
                        'double inversion gives the original object back')
     # After <-> Before on the same date
     for qn, partner in ((c01.AFTER, 'Before'), (c01.BEFORE, 'After')):
-        inv = _single_return(an.method(qn, '__invert__'))
-        ok = inv is not None and ast.unparse(inv) == '%s(self.date)' % partner
+        ok = _returns_only(an, qn, '__invert__', '%s(self.date)' % partner)
         mine = truth.of_object(qn, {})
         other_qn = c01.BEFORE if partner == 'Before' else c01.AFTER
         theirs = truth.of_object(other_qn, {})
@@ -600,25 +686,28 @@ def _check_algebra(check, an: Analysis, classes):
                        '~ builds %s(self.date); `%s` is the complement of `%s`' % (
                            partner, ast.unparse(theirs), ast.unparse(mine)))
     for qn, partner in ((c01.ETERNITY, 'Instant'), (c01.INSTANT, 'Eternity')):
-        inv = _single_return(an.method(qn, '__invert__'))
         check.instance('B', '~%s' % qn.rsplit('.', 1)[-1],
-                       inv is not None and ast.unparse(inv) == '%s()' % partner,
+                       _returns_only(an, qn, '__invert__', '%s()' % partner),
                        where_fn(an.method(qn, '__invert__')), '~ builds %s()' % partner)
     # De Morgan
     for qn, partner in ((ALL, 'Any'), (ANY, 'All')):
-        inv = _single_return(an.method(qn, '__invert__'))
-        ok = inv is not None and isinstance(inv, ast.Call) and \
-            ast.unparse(inv.func) == partner and len(inv.args) == 1 and \
-            isinstance(inv.args[0], ast.Starred) and \
-            isinstance(inv.args[0].value, ast.GeneratorExp)
-        if ok:
-            gen = inv.args[0].value
-            comp = gen.generators[0]
-            ok = ast.unparse(comp.iter) == 'self._children' and not comp.ifs and \
-                isinstance(gen.elt, ast.UnaryOp) and isinstance(gen.elt.op, ast.Invert) and \
-                ast.unparse(gen.elt.operand) == ast.unparse(comp.target)
-        check.instance('B', '~%s' % qn.rsplit('.', 1)[-1], ok,
-                       where_fn(an.method(qn, '__invert__')),
+        callee = an.callee(qn, '__invert__')
+        forms = returned_forms(an, callee)
+        ok = bool(forms)
+        for _atoms, _text, node, path in forms:
+            good = isinstance(node, ast.Call) and ast.unparse(node.func) == partner and \
+                not node.keywords
+            if good and not node.args:
+                # no operand at all: only when the loop over the children ran zero times
+                loops = [e for e in path.events if e.kind in ('iter-next', 'iter-end')
+                         and rules.value_text(path, rules.event_index(path, e),
+                                              e.node.iter) == 'self._children']
+                ok &= bool(loops) and all(e.kind == 'iter-end' for e in loops)
+                continue
+            mapped = _mapped_operands(an, callee.fn, path, node.args[0]) \
+                if good and len(node.args) == 1 else None
+            ok &= mapped == ('self._children', '~x_')
+        check.instance('B', '~%s' % qn.rsplit('.', 1)[-1], ok, where_fn(callee.fn),
                        'De Morgan: %s(*(~child for child in self._children))' % partner)
     # comparison operator table
     cls = an.cls(COMPARISON)
@@ -632,9 +721,12 @@ def _check_algebra(check, an: Analysis, classes):
                    where_fn(an.method(COMPARISON, '__invert__')),
                    'complement map of the six comparison operators (an involution): %s'
                    % pairs)
-    inv = _single_return(an.method(COMPARISON, '__invert__'))
-    ok = inv is not None and isinstance(inv, ast.Call) and [ast.unparse(a) for a in inv.args] \
+    forms = returned_forms(an, an.callee(COMPARISON, '__invert__'))
+    ok = bool(forms) and all(
+        isinstance(node, ast.Call) and not node.keywords and [ast.unparse(a) for a in node.args]
         == ['self._left', 'self._operator_inverse[self._condition]', 'self._right']
+        and ast.unparse(node.func).split('.')[-1] in ('AsyncComparison', '__class__')
+        for _a, _t, node, _p in forms)
     check.instance('B', '~AsyncComparison', ok, where_fn(an.method(COMPARISON, '__invert__')),
                    'same operands, complemented operator')
     init = an.method(COMPARISON, '__init__')
@@ -647,10 +739,9 @@ def _check_algebra(check, an: Analysis, classes):
            '__gt__': 'gt'}
     for name, op in ops.items():
         method = an.method(TRACKED, name)
-        expr = _single_return(method)
         param = method.node.args.args[1].arg
-        ok = expr is not None and ast.unparse(expr) == \
-            'AsyncComparison(self, operator.%s, %s)' % (op, param)
+        ok = _returns_only(an, TRACKED, name,
+                           'AsyncComparison(self, operator.%s, %s)' % (op, param))
         check.instance('B', 'Tracked.%s' % name, ok, where_fn(method),
                        'builds the comparison with its own operator')
     # & and |
@@ -658,14 +749,20 @@ def _check_algebra(check, an: Analysis, classes):
                                (ALL, '__and__', 'All'), (ANY, '__or__', 'Any')):
         method = an.method(qn, name)
         param = method.node.args.args[1].arg
-        returns = [n for n in ast.walk(method.node) if isinstance(n, ast.Return)]
-        forms = sorted(ast.unparse(r.value) for r in returns)
         mine = '*self._children' if qn != CONDITION else 'self'
-        want = sorted(['%s(%s, *%s._children)' % (cls_name, mine, param),
-                       '%s(%s, %s)' % (cls_name, mine, param)])
-        tests = [ast.unparse(n.test) for n in ast.walk(method.node) if isinstance(n, ast.If)]
+        forms = returned_forms(an, an.callee(qn, name))
+        ok, seen = bool(forms), set()
+        for atoms, text, _node, _path in forms:
+            same = atoms.get(('truth', 'isinstance(%s, %s)' % (param, cls_name)))
+            seen.add(same)
+            if same is True:
+                ok &= text == '%s(%s, *%s._children)' % (cls_name, mine, param)
+            elif same is False:
+                ok &= text == '%s(%s, %s)' % (cls_name, mine, param)
+            else:
+                ok = False
         check.instance('B', '%s.%s' % (qn.rsplit('.', 1)[-1], name),
-                       forms == want and tests == ['isinstance(%s, %s)' % (param, cls_name)],
-                       where_fn(method),
-                       'both operands in order; a same-kind operand is flattened: %s' % forms)
+                       ok and seen == {True, False}, where_fn(method),
+                       'both operands in order; a same-kind operand (and only that) is '
+                       'flattened: %s' % sorted({t for _a, t, _n, _p in forms}))
     check.floor('B', 30)
